@@ -199,6 +199,21 @@ def vc_access(ctx):
             ins = [c for c in interp(facts, fb).calls.values() if call_name(c.term) == 'insert' and len(c.args) == 3
                    and versionless(c.args[1].val) == ('field', ('param', 1), 'actor') and versionless(c.args[2].val) == ('field', ('param', 1), 'counter')]
             ok = len(ins) == 1 and r[0] == 'agg' and r[1] == VCLOCK
+            if not ok and len(ins) == 1 and r[0] in ('obj', 'post', 'agg'):
+                # `let mut c = VClock::default(); if dot.counter > 0 { c.dots.insert(dot.actor, dot.counter); } c`: the one store
+                # happens whenever the counter is not 0, into a clock that starts empty
+                def zc(a, b, t):
+                    for x, y, orient in ((a, b, 'fwd'), (b, a, 'rev')):
+                        if versionless(x)[0] == 'const' and versionless(x)[1] == 0 and versionless(y) == ('field', ('param', 1), 'counter'):
+                            return ('zc', orient)
+                    return None
+                c_ = ins[0]
+                bb_ = [b for b, x in interp(facts, fb).calls.items() if x is c_][0]
+                rc_ = Reach(facts, fb, Evaluator(facts, classify=zc, assumption={'zc': LT}))
+                from .vclock import _fresh_clock
+                base_ = c_.args[0].val
+                ok = rc_.must_pass([bb_]) and c_.args[0].loc is not None and c_.args[0].loc[0][0] == 'L' \
+                    and _fresh_clock(base_[1] if base_[0] == 'field' else base_)
         if not ok:
             from .vclock import inline_apply_sites
             sites_ = [x for x in inline_apply_sites(facts, fb, interp(facts, fb), local_clock=True) if not x['errs'] and x['frame'] is None]
